@@ -299,3 +299,20 @@ DIRECTED = [
     "def outer():\n    def a():\n        return 'shared string value'\n    def b():\n        return 'shared string value', 'shared string value'\n    return a, b\n",
     "def f(d='default text', e='default text', g='default text'):\n    return d + e + g + 'default text'\n",
 ]
+
+
+# programs on which the STRUCTURAL transforms act (annotated assignments, adjacent imports, asserts, pass, return None, object bases,
+# foldable arithmetic, exception brackets, debug ifs) inside class bodies nested in functions, in headers, in comprehensions -
+# with names that also exist in the enclosing scopes.  Used to compare renaming / hoisting on top of the transformed tree.
+TRANSFORM_SHAPES = [
+    "timeout = 99\nretries = 7\ndef build(flag):\n    class Settings:\n        timeout: int = 30\n        if flag:\n            retries: int = 3\n        else:\n            retries: int = 5\n        try:\n            verbose: bool = False\n        finally:\n            pass\n    return Settings, timeout, retries\nprint(build(True)[0].timeout, build(False)[0].retries, build(True)[1:], timeout, retries)\n",
+    "def factory():\n    class Codec:\n        import json as serializer\n        import zlib as compressor\n        import base64\n        def pack(self, value):\n            return self.compressor.compress(self.serializer.dumps(value).encode())\n    return Codec\nprint(sorted(n for n in vars(factory()) if not n.startswith('_')))\n",
+    "class Codec:\n    import json as serializer\n    import zlib as compressor\n    def pack(self, value):\n        return self.compressor.compress(self.serializer.dumps(value).encode())\nserializer = 1\nprint(sorted(n for n in vars(Codec) if not n.startswith('_')), serializer)\n",
+    "def deco(arg):\n    def wrap(fn):\n        fn.arg = arg\n        return fn\n    return wrap\n@deco(True | False)\ndef configure(strict=True | False, verbose=True & True, *, check=False | True):\n    return strict, verbose, check, True\nprint(configure(), configure.arg)\n",
+    "def scaled(unit=0.5 + 0.5, base=1.5 - 0.5, *, zero=1.0 - 1.0):\n    return unit, base, zero, 1.0, 0.0\nprint(scaled())\ndef table():\n    return [2.0 - 1 for value in range(3)], [0.5 * 2 for other in range(2)], 1.0\nprint(table())\n",
+    "def outer():\n    class Checked(object):\n        limit: int = 10\n        def run(self, amount: int = 1) -> None:\n            assert amount < self.limit, 'too much'\n            if __debug__:\n                print('debug')\n            pass\n            return None\n    return Checked\nprint(outer()().run())\n",
+    "import os\nimport sys\ndef guard(value):\n    if value is None:\n        raise ValueError()\n    elif value < 0:\n        raise TypeError()\n    import os.path\n    import sys as system\n    return os.sep, system.maxsize > 0\nprint(guard(1))\n",
+    "from typing import NamedTuple\nimport dataclasses\ndef models():\n    class Point(NamedTuple):\n        x: int = 0\n        y: int = 0\n    @dataclasses.dataclass\n    class Size:\n        w: int = 1\n        h: int = 2\n    class Plain:\n        w: int = 3\n    return Point(), Size(), Plain.w\nprint(models())\n",
+    "def first(a, b, /, c, *, d=1):\n    total: int = a + b\n    other: int\n    other = c + d\n    return total, other\nprint(first(1, 2, 3))\nhandler = lambda x, /, y=2: (x, y)\nprint(handler(1))\n",
+    "value = 'module level'\ndef shadow():\n    class Holder:\n        value: str = 'class level'\n        other = value\n    return Holder.value, Holder.other, value\nprint(shadow())\n",
+]
